@@ -981,6 +981,66 @@ def congruent_id_scripts(prefix, tier):
     return out
 
 
+def bad_utf8_scripts(prefix):
+    """ill-formed UTF-8 (a lone 0xff, an overlong form, a surrogate, a code point above U+10FFFF, a truncated sequence) and the
+    null character in every string-valued field of every packet type a server can send"""
+    out = []
+    BAD = [b'\xff', b'\xc0\x80', b'\xed\xa0\x80', b'a\xffb', b'\xf4\x90\x80\x80', b'\xe2\x82', b'a\x00b']
+    i = 0
+    for bad in BAD:
+        fields = {'connack': [(18, bad), (26, bad), (28, bad), (31, bad), (21, bad), (38, (bad, b'v')), (38, (b'k', bad))],
+                  'publish': [(8, bad), (3, bad), (38, (bad, b'v')), (38, (b'k', bad)), 'topic'],
+                  'ack': [(31, bad), (38, (bad, b'v')), (38, (b'k', bad))],
+                  'disconnect': [(31, bad), (28, bad), (38, (bad, b'v')), (38, (b'k', bad))],
+                  'auth': [(21, bad), (31, bad), (38, (bad, b'v')), (38, (b'k', bad))]}
+        for f in fields['connack']:
+            s = Sess(f'{prefix}-badutf8-connack-{i}'); i += 1
+            s.add('SETUP'); s.add('CONNECT cid=63'); s.add(m.feed(m.connack(0, 0, [f])))
+            out.append(s.script())
+        for f in fields['auth']:
+            s = Sess(f'{prefix}-badutf8-authc-{i}'); i += 1
+            s.add('SETUP'); s.add('CONNECT cid=63 am=6d'); s.add(m.feed(m.auth(0x18, [f] if f[0] == 21 else [(21, b'm'), f])))
+            out.append(s.script())
+        for f in fields['publish']:
+            for qos in (0, 1):
+                s = Sess(f'{prefix}-badutf8-publish-{i}'); i += 1
+                s.connect()
+                op, sid = s.subscribed_stream()
+                if f == 'topic':
+                    s.feed(m.publish(bad, b'x', qos, 7 if qos else None, 0, 0, [(11, sid)]))
+                else:
+                    s.feed(m.publish(b'a', b'x', qos, 7 if qos else None, 0, 0, [(11, sid), f]))
+                s.ping(); s.feed(m.pingresp())
+                out.append(s.script())
+        for kind in ('puback', 'pubrec', 'pubcomp', 'pubrel', 'suback', 'unsuback'):
+            for f in fields['ack']:
+                s = Sess(f'{prefix}-badutf8-{kind}-{i}'); i += 1
+                s.connect()
+                if kind == 'puback':
+                    o, p2 = s.publish(1); s.feed(m.ack('puback', p2, 0x97, [f]))
+                elif kind == 'pubrec':
+                    o, p2 = s.publish(2); s.feed(m.ack('pubrec', p2, 0x97, [f]))
+                elif kind == 'pubcomp':
+                    o, p2 = s.publish(2); s.feed(m.ack('pubrec', p2)); s.feed(m.ack('pubcomp', p2, 0x92, [f]))
+                elif kind == 'pubrel':
+                    s.feed(m.publish(b'a', b'x', 2, 7)); s.feed(m.ack('pubrel', 7, 0x92, [f]))
+                elif kind == 'suback':
+                    o, p2, sid = s.subscribe(); s.feed(m.suback(p2, [0], [f]))
+                else:
+                    o, p2 = s.unsubscribe(); s.feed(m.unsuback(p2, [0], [f]))
+                s.ping(); s.feed(m.pingresp())
+                out.append(s.script())
+        for f in fields['disconnect']:
+            s = Sess(f'{prefix}-badutf8-disconnect-{i}'); i += 1
+            s.connect(); s.publish(1); s.feed(m.disconnect(0x8b, [f]))
+            out.append(s.script())
+        for f in fields['auth']:
+            s = Sess(f'{prefix}-badutf8-auth-{i}'); i += 1
+            s.connect(); s.feed(m.auth(0x19, [f] if f[0] == 21 else [(21, b'm'), f])); s.ping(); s.feed(m.pingresp())
+            out.append(s.script())
+    return out
+
+
 def fam_C04(rng, tier):
     out = []
     # (1) exhaustive short byte strings over the boundary alphabet, in both phases
@@ -3281,7 +3341,7 @@ def with_extras(fam):
 FAMILIES = {
     'C01': lambda rng, tier: fam_C01(rng, tier) + submission_order_scripts(rng, tier, 'c01'),
     'C02': lambda rng, tier: fam_C02(rng, tier) + user_property_order_scripts('c02'), 'C03': fam_C03,
-    'C04': with_common(lambda rng, tier: fam_C04(rng, tier) + burst_scripts('c04', tier) + prop_by_type_scripts('c04') + padded_subid_scripts('c04') + reason_sweep_scripts('c04', tier), 'c04'), 'C05': with_common(fam_C05, 'c05'), 'C06': with_common(fam_C06, 'c06'),
+    'C04': with_common(lambda rng, tier: fam_C04(rng, tier) + burst_scripts('c04', tier) + prop_by_type_scripts('c04') + padded_subid_scripts('c04') + reason_sweep_scripts('c04', tier) + bad_utf8_scripts('c04'), 'c04'), 'C05': with_common(fam_C05, 'c05'), 'C06': with_common(fam_C06, 'c06'),
     'C07': with_common(lambda rng, tier: fam_C07(rng, tier) + padded_subid_scripts('c07'), 'c07'), 'C08': with_common(fam_C08, 'c08'), 'C09': with_common(lambda rng, tier: fam_C09(rng, tier) + congruent_id_scripts('c09', tier), 'c09'),
     'C10': with_common(fam_C10, 'c10'), 'C11': with_common(fam_C11, 'c11', n_quick=15, n_thorough=300),
     'C12': with_common(fam_C12, 'c12'), 'C13': with_common(fam_C13, 'c13'),
